@@ -1185,7 +1185,11 @@ func (m *Model) ruleREGISTRY(r *Results) {
 	// unconditionally: other handles must not keep working on a deleted store
 	nDel := 0
 	for _, fn := range m.Funcs {
-		if fn.Parent() != nil || m.methodOwner(fn) != a.BucketType {
+		root := fn
+		for root.Parent() != nil {
+			root = root.Parent()
+		}
+		if m.methodOwner(root) != a.BucketType {
 			continue
 		}
 		var del, shut ssa.CallInstruction
@@ -1212,7 +1216,7 @@ func (m *Model) ruleREGISTRY(r *Results) {
 		}
 		nDel++
 		ok := shut != nil && (shut.Block() == del.Block() && indexIn(shut.Block(), shut) < indexIn(del.Block(), del) || shut.Block() != del.Block() && shut.Block().Dominates(del.Block()))
-		r.check(ok, rule, m.declName(fn)+" / store shut down before its files are deleted", m.instrPos(del), "the shutdown routine runs on every path before the files are deleted", "the bucket's files are deleted on a path on which the shared store has not been shut down: handles that are still open keep reading and writing a deleted database, and their feeds and timer keep running")
+		r.check(ok, rule, m.declName(root)+" / store shut down before its files are deleted", m.instrPos(del), "the shutdown routine runs on every path before the files are deleted", "the bucket's files are deleted on a path on which the shared store has not been shut down: handles that are still open keep reading and writing a deleted database, and their feeds and timer keep running")
 	}
 	if nDel == 0 {
 		r.undecided(rule, "delete", "-", "no bucket method deletes the bucket's files")
